@@ -1,7 +1,7 @@
 (* C07 -- H-Revolve family schedules achieve their cost optimum for any cost vector
    Property theorems only: each proof is one application of a lemma proved in Proofs/, followed by Print Assumptions. *)
 From Coq Require Import ZArith List Bool.
-From CS Require RevCost RevConv RevBridge4 RevolveRun Opt0Table.
+From CS Require RevCost RevConv RevBridge4 RevolveRun Opt0Table DiskCost.
 From CS Require Import Actions NAdvance Multistage Exec Sched RunFacts Projections BasicInv MultistageRun AllocTotal TLBridge MixBridge.
 Import ListNotations.
 Open Scope Z_scope.
@@ -60,10 +60,137 @@ Proof. exact (@Opt0Table.opt0_values). Qed.
 Print Assumptions C07_opt0_values.
 End M_C07_opt0_values.
 
-(* PARTIAL: the cost theorems for DiskRevolve, PeriodicDiskRevolve and HRevolve (get_opt_inf_table, get_hopt_table) and the three orderings between the classes are not proved: correspondence + clean-DP oracle only; (this lemma is the structural work formula the Revolve theorem rests on) *)
-Module M_C07_other_classes_partial.
+(* REVOLVE, operation lists (cost = uf per forward step + ub per Backward + wd per Write_disk + rd per Read_disk): the list revolve produces is in the grammar RevBlk.Blk, costs exactly the opt_0 table entry + (l+1) uf, and no list of that grammar for l steps and cm slots costs less *)
+Module M_C07_revolve_optimal_in_grammar.
+Import DiskCost.
+Theorem C07_revolve_optimal_in_grammar :
+  forall uf ub wd rd : Z,
+         0 < uf ->
+         forall (l cm : Z) (s : list Ops.op),
+         0 <= l ->
+         0 <= cm ->
+         (1 <= l -> 1 <= cm) ->
+         RevSeq.revolve_top l cm uf ub = Actions.Ok s ->
+         exists s0 : list RevBlk.op,
+           s = map RevBridge1.inj s0 /\
+           RevBlk.Blk true 0 l cm s0 /\
+           cost uf ub wd rd s0 = Opt0Table.val uf ub cm l + (l + 1) * uf /\
+           (forall s' : list RevBlk.op, RevBlk.Blk true 0 l cm s' -> cost uf ub wd rd s0 <= cost uf ub wd rd s').
+Proof. exact (@DiskCost.revolve_optimal). Qed.
+Print Assumptions C07_revolve_optimal_in_grammar.
+End M_C07_revolve_optimal_in_grammar.
+
+(* DISKREVOLVE: the list disk_revolve produces is in the grammar DiskBlk.DBlk (each disk checkpoint written once and read once, every segment reversed by a memory-only block), costs exactly Dv l + (l+1) uf, and no list of that grammar costs less *)
+Module M_C07_disk_revolve_optimal_in_grammar.
+Import DiskCost.
+Theorem C07_disk_revolve_optimal_in_grammar :
+  forall uf ub wd rd : Z,
+         0 < uf ->
+         forall (l cm : Z) (s : list Ops.op),
+         0 <= l ->
+         1 <= cm ->
+         RevSeq.disk_revolve_top l cm rd wd uf ub = Actions.Ok s ->
+         exists s0 : list RevBlk.op,
+           s = map RevBridge1.inj s0 /\
+           DiskBlk.DBlk cm 0 l s0 /\
+           cost uf ub wd rd s0 = Dv uf ub wd rd cm l + (l + 1) * uf /\
+           (forall s' : list RevBlk.op, DiskBlk.DBlk cm 0 l s' -> cost uf ub wd rd s0 <= cost uf ub wd rd s').
+Proof. exact (@DiskCost.disk_revolve_optimal). Qed.
+Print Assumptions C07_disk_revolve_optimal_in_grammar.
+End M_C07_disk_revolve_optimal_in_grammar.
+
+(* ... where Dv is the Disk-Revolve recurrence: Dv l = min(opt_0[cm][l], min_j (wd + j uf + Dv (l-j) + rd + opt_0[cm][j-1])) *)
+Module M_C07_Dv_recurrence.
+Import DiskCost.
+Theorem C07_Dv_recurrence :
+  forall uf ub wd rd cm l : Z,
+         2 <= l ->
+         Dv uf ub wd rd cm l =
+         Z.min (Opt0Table.val uf ub cm l)
+           (RevSeq.zmin_list (map (cand uf ub wd rd cm (Dv uf ub wd rd cm) l) (Ops.zrange 1 l)) 0).
+Proof. exact (@DiskCost.Dv_unfold). Qed.
+Print Assumptions C07_Dv_recurrence.
+End M_C07_Dv_recurrence.
+
+(* ... which is what the extracted get_opt_inf_table tabulates *)
+Module M_C07_optinf_values.
+Import DiskCost.
+Theorem C07_optinf_values :
+  forall (uf ub wd rd : Z) (t : list (list Z)) (M L : Z),
+         (forall m l : Z,
+          0 <= m <= M ->
+          0 <= l <= L -> 1 <= m \/ l = 0 -> RevSeq.tget t m l = Actions.Ok (Opt0Table.val uf ub m l)) ->
+         forall cm : Z,
+         1 <= cm <= M ->
+         forall (lmax : Z) (ti : list Z),
+         0 <= lmax <= L ->
+         RevSeq.get_opt_inf_table lmax cm uf ub rd wd t = Actions.Ok ti ->
+         forall l : Z, 0 <= l <= lmax -> RevSeq.lget ti l = Actions.Ok (Dv uf ub wd rd cm l).
+Proof. exact (@DiskCost.optinf_values). Qed.
+Print Assumptions C07_optinf_values.
+End M_C07_optinf_values.
+
+(* cost(DiskRevolve) <= cost(Revolve), same l, cm and costs *)
+Module M_C07_disk_le_revolve.
+Import DiskCost.
+Theorem C07_disk_le_revolve :
+  forall uf ub wd rd : Z,
+         0 < uf ->
+         forall (l cm : Z) (sd sr : list RevBlk.op),
+         0 <= l ->
+         1 <= cm ->
+         RevSeq.disk_revolve_top l cm rd wd uf ub = Actions.Ok (map RevBridge1.inj sd) ->
+         RevSeq.revolve_top l cm uf ub = Actions.Ok (map RevBridge1.inj sr) ->
+         cost uf ub wd rd sd <= cost uf ub wd rd sr.
+Proof. exact (@DiskCost.disk_le_revolve). Qed.
+Print Assumptions C07_disk_le_revolve.
+End M_C07_disk_le_revolve.
+
+(* cost(PeriodicDiskRevolve) >= cost(DiskRevolve): the periodic list is in the DBlk grammar (PeriodGen.periodic_grammar) *)
+Module M_C07_periodic_ge_disk.
+Import DiskCost.
+Theorem C07_periodic_ge_disk :
+  forall uf ub wd rd : Z,
+         0 < uf ->
+         forall (l cm : Z) (sd : list RevBlk.op) (sp : list Ops.op) (mx : Z),
+         0 <= l ->
+         1 <= cm ->
+         RevSeq.disk_revolve_top l cm rd wd uf ub = Actions.Ok (map RevBridge1.inj sd) ->
+         RevSeq.periodic_top l cm rd wd uf ub = Actions.Ok (sp, mx) ->
+         exists sp0 : list RevBlk.op,
+           sp = map RevBridge1.inj sp0 /\ cost uf ub wd rd sd <= cost uf ub wd rd sp0.
+Proof. exact (@DiskCost.periodic_ge_disk). Qed.
+Print Assumptions C07_periodic_ge_disk.
+End M_C07_periodic_ge_disk.
+
+(* (the lower bounds) every memory block ... *)
+Module M_C07_blk_cost_lower_bound.
+Import DiskCost.
+Theorem C07_blk_cost_lower_bound :
+  forall uf ub wd rd : Z,
+         0 <= uf ->
+         forall (wm : bool) (o l c : Z) (s : list RevBlk.op),
+         RevBlk.Blk wm o l c s -> cost uf ub wd rd s >= Opt0Table.val uf ub c l + (l + 1) * uf.
+Proof. exact (@DiskCost.Blk_cost_lb). Qed.
+Print Assumptions C07_blk_cost_lower_bound.
+End M_C07_blk_cost_lower_bound.
+
+(* ... and every disk block *)
+Module M_C07_dblk_cost_lower_bound.
+Import DiskCost.
+Theorem C07_dblk_cost_lower_bound :
+  forall uf ub wd rd : Z,
+         0 <= uf ->
+         forall (cm o l : Z) (s : list RevBlk.op),
+         DiskBlk.DBlk cm o l s -> 0 <= l -> cost uf ub wd rd s >= Dv uf ub wd rd cm l + (l + 1) * uf.
+Proof. exact (@DiskCost.DBlk_cost_lb). Qed.
+Print Assumptions C07_dblk_cost_lower_bound.
+End M_C07_dblk_cost_lower_bound.
+
+(* PARTIAL: for HRevolve (get_hopt_table) the cost theorem and monotonicity in the number of disk units are not proved: correspondence + clean-DP oracle only; for the disk classes the theorems above are about the operation lists -- the stream performs one Forward per Forward op with the same length (forward total: C07_revolve_forward_total; disk reads and writes of the stream are counted by the oracle); (this lemma is the structural work formula the Revolve theorem rests on) *)
+Module M_C07_hrevolve_partial.
 Import RevCost.
-Theorem C07_other_classes_partial :
+Theorem C07_hrevolve_partial :
   forall uf ub : Z,
          0 < uf ->
          forall (opt0 : list (list Z)) (M L : Z) (P : Z -> Z -> Z),
@@ -80,8 +207,8 @@ Theorem C07_other_classes_partial :
          RevGen.revolve fuel opt0 uf l cm = RevGen.GOk ops ->
          0 <= l <= L -> 0 <= cm <= M -> (1 <= l -> 1 <= cm) -> work ops = l + 1 + P cm l.
 Proof. exact (@RevCost.revolve_work). Qed.
-Print Assumptions C07_other_classes_partial.
-End M_C07_other_classes_partial.
+Print Assumptions C07_hrevolve_partial.
+End M_C07_hrevolve_partial.
 
 (* the split chosen is a minimiser *)
 Module M_C07_argmin_min.
